@@ -714,6 +714,18 @@ def h3_body(t, part, trees):
         return Fail('tree:roundtrip-header', '%r' % (got,))
     if not _same(q.data, exp_data):
         return Fail('tree:roundtrip-data', 'decoded %r, sent %r' % (q.data, exp_data))
+    # encoding is a function of the packet: the same object encoded again, and the decoded packet encoded (a relay), give
+    # the same frames
+    def parsed(frames):
+        # (the JSON text is an opaque token in this harness: compare what it stands for)
+        text_, atts_ = (frames[0], list(frames[1:])) if isinstance(frames, list) else (frames, [])
+        r = P(encoded_packet=text_)
+        return (r.packet_type, r.namespace or '/', r.id, r.attachment_count, len(atts_)), r.data, atts_
+    first = parsed(enc)
+    for who, obj in (('the same packet encoded twice', p), ('the decoded packet re-encoded', q)):
+        again = parsed(obj.encode())
+        if again[0] != first[0] or not _same(again[1], first[1]) or again[2] != first[2]:
+            return Fail('tree:encode-not-repeatable', '%s: first %r, then %r' % (who, first, again))
     t.reached('tree')
     t.note('binary', binary, 'attachments', len(exp_atts))
     return None
